@@ -132,7 +132,7 @@ func TestC09(t *testing.T) {
 		"version x system id {1,2,127,255} x component id {0,1,200,255} x key x link id, through streamwriter.Writer, frame.Writer.WriteMessage, frame.ReadWriter.WriteMessage and a Node with 1..6 custom channels " +
 		"(WriteMessageAll/To/Except + heartbeats + stream requests on the same per-link counter); every emitted frame parsed by the reference: identity, version, flags, checksum, v1 base size, " +
 		"sequence automaton (first 0, then +1 mod 256; a step of 1..1+r only across r refused writes). A second dialect that gives ids 0 and 66 other definitions is used side by side (stream writers and nodes, raw and decoded, either dialect first). Initialization refusals enumerated. distinct = (configuration, api) links")
-	rep.RuleAdd("Also: frames forwarded through the node between the originated ones, a third of them carrying the node's own system and component id and arbitrary sequence numbers; link generations; twin dialects.")
+	rep.RuleAdd("Also: frames forwarded through the node between the originated ones, a third of them carrying the node's own system and component id and arbitrary sequence numbers; link generations; twin dialects. Every other node uses a dialect whose version is 0.")
 	rep.Assume("a sequence number consumed by a refused write is tolerated (the statement speaks of accepted writes); counted in seq_numbers_consumed_by_refused_writes")
 	seed := vh.Seed()
 	r := vh.Sub(seed, "c09")
